@@ -158,6 +158,7 @@ structure St where
   tDims : List String := []
   tCfgText : String := ""
   tArr : List (Nat × JMsg) := []          -- written points, reversed
+  tOn : List Spec.OnArrival := []         -- written points of a real on() task, reversed
   tBin : List (Nat × JMsg) := []          -- batches that entered the join of a batch task, reversed
   runs : List RunRec := []
   branches : List String := []
@@ -330,12 +331,16 @@ def judgeLine (st : St) (l : String) : Except Verdict St := do
     let some rn := unesc ((kvGet m "rename").getD "%") | throw (.badop l)
     if obs != ["ok"] then throw (.mismatch s!"task new: observed {obs}")
     pure { st with kind := "task", tKind := (kvGet m "kind").getD "", jcfg := cfg, tDims := dims, uRename := rn,
+                   jOnDims := splitList ((kvGet m "on").getD "-"), tOn := [],
                    tCfgText := " ".intercalate rest, tArr := [], tBin := [] }
   | "task" :: "w" :: src :: t :: rest =>
     let some src := src.toNat? | throw (.badop l)
     let some t := t.toInt? | throw (.badop l)
-    let some msg := parseMsg t (s!"name=m{src}" :: ("dims=" ++ renderList (st.tDims.map esc)) :: rest) | throw (.badop l)
+    let some msg := parseMsg t (s!"name=m{src}" :: (rest ++ ["dims=" ++ renderList (st.tDims.map esc)])) | throw (.badop l)
     if src ≥ st.jcfg.parents || st.kind != "task" then throw (.badop l)
+    if st.tKind == "joinon" then
+      let some gg := (kvGet (kvOf rest) "ggrp").bind unesc | throw (.badop l)
+      return { st with tOn := { src := src, msg := msg, specific := msg.dims.length > st.jOnDims.length, general := gg } :: st.tOn }
     pure { st with tArr := (src, msg) :: st.tArr }
   | "task" :: "bin" :: src :: t :: rest =>
     -- a batch that entered the join of a real batch task (recorded by the sink in front of it)
@@ -347,6 +352,24 @@ def judgeLine (st : St) (l : String) : Except Verdict St := do
     pure { st with tBin := (src, { msg0 with points := pts, dims := (sortPairs msg0.tags).map (·.1) }) :: st.tBin }
   | ["task", "run"] =>
     if st.kind != "task" then throw (.badop s!"{l}: no task")
+    if st.tKind == "joinon" then
+      let arr := st.tOn.reverse
+      let some k := obs.head?.bind String.toNat? | throw (.specfail "task-total" s!"the on() task failed: {obs}")
+      let got := sortStrings (obs.drop 1)
+      if k != got.length then throw (.badop l)
+      if !decide (Spec.onDomain st.jcfg arr) then throw (.badop s!"{l}: on() task case outside the claimed domain")
+      let want := sortStrings ((Spec.joinOnOutput st.jcfg arr).map renderOut)
+      if want != got then throw (.specfail "join-on-pairs-specific-with-general" s!"real on() task: spec {want} observed {got}")
+      let (_, sets, stt) := JOn.run st.jcfg (arr.map (fun a => (a.src, a.msg, a.specific, a.general)))
+      if stt != .ok then throw (.mismatch s!"{l}: model status {statusTok stt}")
+      let mdl := sortStrings ((sets.filterMap (joinIntoPoint st.jcfg)).map renderOut)
+      let st := if mdl != got then noteMM st s!"real on() task: model {mdl} observed {got}" else st
+      let r : RunRec := { cfg := st.tCfgText, seqs := (List.range st.jcfg.parents).map (fun i => (arr.filter (·.src == i)).map (fun a => s!"{a.msg.time} {a.msg.tags} {a.msg.fields}")), out := got }
+      match crossCheck st r with
+      | some d => throw (.specfail "join-on-interleaving-independent" d)
+      | none => pure ()
+      let st := addBrs st (["task-join-on"] ++ (if st.runs.any (fun p => p.cfg == r.cfg && p.seqs == r.seqs) then ["task-second-interleaving"] else []))
+      return { st with runs := r :: st.runs, tOn := [], nontrivial := st.nontrivial || !got.isEmpty }
     if st.tKind == "joinb" then
       let arrivals := st.tBin.reverse
       let some k := obs.head?.bind String.toNat? | throw (.specfail "task-total" s!"the batch task failed: {obs}")
